@@ -219,9 +219,6 @@ func checkRoundTrip(c *mon.Ctx, stage string, idx int64, hr *HistRun) {
 						bad("first-packet-af-missing", fmt.Sprintf("pid %#x call %d", pid, w.k))
 						return
 					}
-					if wantAF.HasSplicingCountdown {
-						wantAF.SpliceCountdown &= 0xff
-					}
 					if df := mon.Diff(fp.AdaptationField, wantAF, afIgnore); df != "" {
 						bad("first-packet-af-differs:"+fieldOf(df), fmt.Sprintf("pid %#x call %d: %s", pid, w.k, df))
 						return
@@ -310,6 +307,17 @@ func runC01(c *mon.Ctx) {
 		hr := runHistory(ops, 1+r.IntN(30))
 		checkRoundTrip(c, "remux", i, hr)
 		c.Add("parsed_units_remultiplexed", int64(n))
+	}
+	// first-packet adaptation fields with the discontinuity indicator (a new time base announced with its first PCR): a legal field
+	// like the others, so every unit has to come back. The demuxer reacts to the indicator by discarding what it holds for the PID,
+	// which is the complete unit written just before — known finding, see KNOWN_FINDINGS.txt; anything else that goes missing
+	// or differs is reported as a violation
+	ndi := c.Pick(150, 20000)
+	for i := int64(0); i < ndi; i++ {
+		if !c.Mine("di", i) {
+			continue
+		}
+		diCase(c, i, c.Rng("di", i))
 	}
 	// an explicit PID is removed and the same PID is handed out again by automatic assignment
 	nra := c.Pick(200, 30000)
@@ -407,4 +415,94 @@ func readdScenario(r *rand.Rand) []HOp {
 		ops = append(ops, mk())
 	}
 	return ops
+}
+
+func diCase(c *mon.Ctx, idx int64, r *rand.Rand) {
+	pids := []uint16{0x40, 0x41}
+	ops := []HOp{{Kind: "add", PID: 0x40, ES: &astits.PMTElementaryStream{StreamType: astits.StreamTypeH264Video}, Slot: -1},
+		{Kind: "add", PID: 0x41, ES: &astits.PMTElementaryStream{StreamType: astits.StreamTypeAACAudio}, Slot: -1}, {Kind: "pcr", PID: 0x40}}
+	type wrote struct {
+		pid  uint16
+		data []byte
+		di   bool
+	}
+	var ws []wrote
+	n := 3 + r.IntN(12)
+	for k := 0; k < n; k++ {
+		pid := pids[r.IntN(2)]
+		d := &astits.MuxerData{PES: &astits.PESData{Header: &astits.PESHeader{StreamID: []uint8{0xE0, 0xC0}[pid&1], OptionalHeader: &astits.PESOptionalHeader{MarkerBits: 2}}, Data: gen.Bytes(r, 1+r.IntN(700))}}
+		w := wrote{pid: pid, data: d.PES.Data}
+		switch r.IntN(3) {
+		case 0:
+			d.AdaptationField = &astits.PacketAdaptationField{DiscontinuityIndicator: true, HasPCR: true, PCR: &astits.ClockReference{Base: gen.Clock33(r), Extension: int64(r.IntN(300))}, RandomAccessIndicator: r.IntN(2) == 0}
+			w.di = true
+		case 1:
+			d.AdaptationField = &astits.PacketAdaptationField{HasPCR: true, PCR: &astits.ClockReference{Base: gen.Clock33(r)}}
+		}
+		ops = append(ops, HOp{Kind: "data", PID: pid, Data: d})
+		ws = append(ws, w)
+	}
+	hr := runHistory(ops, 1+r.IntN(10))
+	data := map[string]any{"history": histSample(hr)}
+	for _, cl := range hr.Calls {
+		if cl.Panic != "" || cl.Err != nil {
+			c.Violate("C01/di/call-failed", "di", idx, fmt.Sprintf("%s: %v %s", cl.Op.Kind, cl.Err, cl.Panic), data)
+			return
+		}
+	}
+	run := RunDemux(hr.Out, baseCfg("data"))
+	if run.Panic != "" || len(run.Errors()) > 0 {
+		c.Violate("C01/di/demux-error", "di", idx, fmt.Sprintf("%s %v", run.Panic, run.Errors()), data)
+		return
+	}
+	got := perPID(run.Datas())
+	c.Count("histories_with_discontinuity_indicators")
+	known := false
+	for _, pid := range pids {
+		var full, lib [][]byte // what was written, and what is left when the unit before each indicator is taken out
+		for k, w := range ws {
+			if w.pid != pid {
+				continue
+			}
+			full = append(full, w.data)
+			dropped := false
+			for j := k + 1; j < len(ws); j++ {
+				if ws[j].pid == pid {
+					dropped = ws[j].di
+					break
+				}
+			}
+			if !dropped {
+				lib = append(lib, w.data)
+			}
+		}
+		var g [][]byte
+		for _, d := range got[pid] {
+			if d.PES != nil {
+				g = append(g, d.PES.Data)
+			}
+		}
+		eq := func(a, b [][]byte) bool {
+			if len(a) != len(b) {
+				return false
+			}
+			for k := range a {
+				if !bytes.Equal(a[k], b[k]) {
+					return false
+				}
+			}
+			return true
+		}
+		switch {
+		case eq(g, full):
+		case eq(g, lib):
+			known = true
+		default:
+			c.Violate("C01/di/units-differ", "di", idx, fmt.Sprintf("pid %#x: %d units written, %d delivered, and not the written ones minus those that precede an indicator", pid, len(full), len(g)), data)
+			return
+		}
+	}
+	if known {
+		c.Violate("C01/unit-before-discontinuity-indicator-dropped", "di", idx, "the unit written before a WriteData whose first-packet adaptation field carries the discontinuity indicator is not delivered", data)
+	}
 }
